@@ -43,8 +43,21 @@ func checkC09(c *Checker) {
 	c.NotDecided = append(c.NotDecided, "that the float64 round trip at depth <= 32 is exact (a fact about double rounding no interval/form argument settles); G5 (matching full-scale tables) is the necessary structural condition that is decided",
 		"the one-step accuracy bound follows from G4 by a lemma that is not mechanised")
 	c.Trusted = append(c.Trusted, "IEEE-754 round-to-nearest arithmetic of the host for constant folding of float32/float64 kernels (the arithmetic the Go specification prescribes)")
+	type pr struct{ s, d string }
+	var prs []pr
 	for _, sn := range intTypeNames() {
 		for _, dn := range floatTypes {
+			prs = append(prs, pr{sn, dn})
+		}
+	}
+	for _, sn := range append(namedSigned()[:2], namedUnsigned()[:2]...) {
+		for _, dn := range namedFloats() {
+			prs = append(prs, pr{sn, dn})
+		}
+	}
+	for _, q := range prs {
+		{
+			sn, dn := q.s, q.d
 			ks, kd := kindOf(c.typeByName(sn)), kindOf(c.typeByName(dn))
 			name := "UnsignedAsFloat"
 			if ks.Signed {
@@ -307,8 +320,21 @@ func checkC08(c *Checker) {
 	c.rule("C08-F4", "order: every piece is monotone non-decreasing and images are ordered at every piece boundary", 22)
 	c.NotDecided = append(c.NotDecided, "NaN inputs (excluded by the property)", "the one-step accuracy bound |code - f*fullscale| < 1 + rounding follows from F3 by a lemma that is not mechanised")
 	c.Trusted = append(c.Trusted, "IEEE-754 round-to-nearest arithmetic of the host for constant folding; a float->integer conversion out of range is implementation-defined (Go specification) and treated as a violation")
+	type pr struct{ s, d string }
+	var prs []pr
 	for _, sn := range floatTypes {
 		for _, dn := range intTypeNames() {
+			prs = append(prs, pr{sn, dn})
+		}
+	}
+	for _, sn := range namedFloats() {
+		for _, dn := range append(namedSigned()[:2], namedUnsigned()[:2]...) {
+			prs = append(prs, pr{sn, dn})
+		}
+	}
+	for _, q := range prs {
+		{
+			sn, dn := q.s, q.d
 			ks, kd := kindOf(c.typeByName(sn)), kindOf(c.typeByName(dn))
 			name := "FloatAsUnsigned"
 			if kd.Signed {
